@@ -71,7 +71,7 @@ func (s Step) String() string {
 	if len(s.Keys) > 0 {
 		fmt.Fprintf(&b, "%v", s.Keys)
 	}
-	if s.Kind == kLock || s.Kind == kInsert || ((s.Kind == kSet || s.Kind == kDel) && !s.NoLockFirst) {
+	if s.Kind == kLock || ((s.Kind == kSet || s.Kind == kDel || s.Kind == kInsert) && !s.NoLockFirst) {
 		var o []string
 		if s.RV {
 			o = append(o, "rv")
@@ -110,6 +110,7 @@ type Program struct {
 	Seed   int64
 	Pess   bool
 	Exists map[string]bool // key -> has a committed value when the subject starts
+	Splits []string        // region borders when the subject starts (every program runs in a fresh universe)
 	Steps  []Step
 	Commit bool // false: Rollback
 	// obstacle in place while the subject's Commit runs (released inside its second prewrite attempt on that key)
@@ -147,7 +148,7 @@ func (p *Program) String() string {
 		}
 	}
 	sort.Strings(ex)
-	return fmt.Sprintf("%s exists=%v [%s] %s faults=%d/%d/%d", m, ex, strings.Join(ss, " ; "), end, p.CleanupErrPct, p.OtherErrPct, p.TopoPct)
+	return fmt.Sprintf("%s exists=%v splits=%v [%s] %s faults=%d/%d/%d", m, ex, p.Splits, strings.Join(ss, " ; "), end, p.CleanupErrPct, p.OtherErrPct, p.TopoPct)
 }
 
 type gen struct {
@@ -272,6 +273,13 @@ func (g *gen) Next(seed int64, pess bool) *Program {
 	for _, k := range keys {
 		p.Exists[k] = g.rng.Intn(100) < 55
 	}
+	// few borders: several keys of a request share a region, so that a split inside an RPC cuts a batch in two
+	dens := []int{0, 15, 30, 60}[g.rng.Intn(4)]
+	for _, k := range splitPoints {
+		if g.rng.Intn(100) < dens {
+			p.Splits = append(p.Splits, k)
+		}
+	}
 	switch g.rng.Intn(4) {
 	case 0:
 		// calm
@@ -322,7 +330,12 @@ func (g *gen) pessimistic(p *Program) {
 			}
 			p.Steps = append(p.Steps, s)
 		case x < 68:
-			p.Steps = append(p.Steps, g.insertStep(p.Exists, can))
+			s := g.insertStep(p.Exists, can)
+			if g.rng.Intn(4) == 0 {
+				// unlocked insert (lazy uniqueness check): the existence check happens at prewrite
+				s.NoLockFirst, s.Ob, s.ObKey = true, obNone, ""
+			}
+			p.Steps = append(p.Steps, s)
 			locked++
 		default:
 			g.aggressive(p, can)
@@ -330,11 +343,28 @@ func (g *gen) pessimistic(p *Program) {
 		}
 	}
 	p.Commit = g.rng.Intn(100) < 60
+	if g.rng.Intn(100) < 30 {
+		// a Commit that fails at prewrite while pessimistic locks are held: an unlocked insert of a key that
+		// exists; half of the time in a single region (so that 1PC, where enabled, is really attempted)
+		var ex []string
+		for _, k := range keys {
+			if p.Exists[k] {
+				ex = append(ex, k)
+			}
+		}
+		if len(ex) > 0 {
+			p.Steps = append(p.Steps, Step{Kind: kInsert, Keys: []string{ex[g.rng.Intn(len(ex))]}, NoLockFirst: true})
+			p.Commit = true
+			if g.rng.Intn(2) == 0 {
+				p.Splits = nil
+			}
+		}
+	}
 	if p.Commit {
 		// an obstacle during Commit only bites on keys written without a lock
 		var unlocked []string
 		for _, s := range p.Steps {
-			if (s.Kind == kSet || s.Kind == kDel) && s.NoLockFirst {
+			if (s.Kind == kSet || s.Kind == kDel || s.Kind == kInsert) && s.NoLockFirst {
 				unlocked = append(unlocked, s.Keys[0])
 			}
 		}
